@@ -661,7 +661,7 @@ func (a *c30Adversary) attack(r *kit.Rand, rnd basics.Round) c30Answer {
 		case 0:
 			b.TimeStamp++
 		case 1:
-			b.Seed[r.Intn(32)] ^= 0x40
+			b.BlockHeader.Seed[r.Intn(32)] ^= 0x40
 		case 2:
 			b.Branch[r.Intn(32)] ^= 0x01
 		default:
